@@ -6,7 +6,9 @@
   over), so "only complete records, in publication order, and catching up without reopening"
   (`C02.no_mixture_general`, `C03.accepted_monotone`, `C03.catches_up`) already hold across every
   crash/restart sequence. This file adds the FILE level, (c) and (d): every point of
-  `ShmWriter::new` + first `write` at which the process can stop, over every prior file state.
+  `ShmWriter::new` + first `write` at which the process can stop, over every prior file state
+  (incl. `foreign`: a segment of another layout revision), and what a client that attaches between
+  the crash and the restart obtains (`fresh_after_crash`: nothing that was never published).
 -/
 import ClockBound.Model.Crash
 import ClockBound.Proofs.Crash
@@ -114,6 +116,46 @@ theorem attached_reader_across_restart (f : FileA) (rec1 rec2 : List Nat) (k : N
     simp only [ReaderA.snap, finalUsable, hss] <;> (repeat' split) <;> (dsimp only at *) <;>
     first | omega | simp
 
+/-- nobody reads what was never published: whatever the file contained (usable, foreign, garbage, …),
+    wherever the writer died and whatever record it was publishing, a FRESH client that opens the file
+    left behind either cannot attach, or its first snapshot is the empty record, the record being
+    published, or — only over a usable prior segment — the prior's record. In particular the payload of
+    an unusable prior file is never handed out: re-creation truncates it before the header becomes valid -/
+theorem fresh_after_crash (f : FileA) (rec : List Nat) (k : Nat) :
+    let f1 := (runUntil f rec k).1
+    let r := ({} : ReaderA).snap f1
+    openText f1 ≠ "ok" ∨ r.cache = List.replicate 7 0 ∨ r.cache = rec ∨
+      (f.usable = true ∧ r.cache = f.cells) := by
+  dsimp only
+  cases h : f.usable
+  · by_cases hk : k ≤ 15 + hdrLoads f
+    · exact Or.inl (openText_unusable _ (unusable_until_first_publication_starts f rec k h hk))
+    · rcases runUntil_unusable_suffix f rec k h (by omega) with e | e | e <;> rw [e] <;>
+        simp [ReaderA.snap, finalFresh]
+  · refine Or.inr ?_
+    rcases runUntil_usable_cases f rec k h with e | e | e | e | e <;> rw [e, snap_fresh_cache] <;>
+      split <;>
+      first | exact Or.inl rfl | exact Or.inr (Or.inl rfl) | exact Or.inr (Or.inr ⟨rfl, rfl⟩)
+
+/-- the same, on the `fresh:` field of the crashed group of the model's prediction, for every prior,
+    crash point and pair of records -/
+theorem fresh1_after_crash (p : Prior) (k k1 k2 : Nat) :
+    (predict p k k1 k2).fresh1 = "none" ∨
+    (predict p k k1 k2).fresh1 = cellsText (List.replicate 7 0) ∨
+    (predict p k k1 k2).fresh1 = cellsText (recCells k1) ∨
+    (p.file.usable = true ∧ (predict p k k1 k2).fresh1 = cellsText p.file.cells) := by
+  rw [predict_fresh1]
+  have h := fresh_after_crash p.file (recCells k1) k
+  dsimp only at h
+  split
+  · exact Or.inl rfl
+  · rename_i hok
+    rcases h with h | h | h | ⟨hu, h⟩
+    · exact absurd h hok
+    · exact Or.inr (Or.inl (congrArg cellsText h))
+    · exact Or.inr (Or.inr (Or.inl (congrArg cellsText h)))
+    · exact Or.inr (Or.inr (Or.inr ⟨hu, congrArg cellsText h⟩))
+
 /-- the oracle evaluated on the implementation holds of the model's own prediction -/
 theorem model_holds (p : Prior) (k k1 k2 : Nat) (hp : p.file.gen < 65536) :
     HoldsFile p k1 k2 (predict p k k1 k2) = true := by
@@ -123,7 +165,17 @@ theorem model_holds (p : Prior) (k k1 k2 : Nat) (hp : p.file.gen < 65536) :
   have efresh : (predict p k k1 k2).fresh = cellsText (recCells k2) := by
     rw [predict_fresh]; exact congrArg cellsText hfresh
   have emode : (predict p k k1 k2).mode = "644" := rfl
+  have efresh1 : ((predict p k k1 k2).fresh1 == "none" ||
+      (predict p k k1 k2).fresh1 == cellsText (List.replicate 7 0) ||
+      (predict p k k1 k2).fresh1 == cellsText (recCells k1) ||
+      (p.file.usable && (predict p k k1 k2).fresh1 == cellsText p.file.cells)) = true := by
+    rcases fresh1_after_crash p k k1 k2 with h | h | h | ⟨hu, h⟩
+    · rw [h]; simp
+    · rw [h]; simp
+    · rw [h]; simp
+    · rw [h, hu]; simp
   unfold HoldsFile
+  rw [efresh1]
   cases hu : p.file.usable
   · simp [efresh, emode, predict_att1_unusable p k k1 k2 hu, predict_att2_unusable p k k1 k2 hu]
   · obtain ⟨q1, q2, q3, _⟩ := usable_preserved p.file (recCells k1) k hu hp
@@ -149,5 +201,16 @@ theorem model_holds (p : Prior) (k k1 k2 : Nat) (hp : p.file.gen < 65536) :
 example : (runUntil (Prior.valid 4 90).file (recCells 1) 9).2 = some .storeGenOdd := by decide
 example : (runUntil Prior.missing.file (recCells 1) 7).1.len = 16 := by decide
 example : (runAll Prior.garbage.file (recCells 5)).gen = 2 := by decide
+-- `fresh_after_crash` at a foreign prior (another layout revision's segment, even generation, payload
+-- `recCells 97`) whose re-creation dies right after the second magic word was written (event 4): the
+-- file is 8 bytes long, nobody can attach, the foreign payload is gone
+example : (runUntil (Prior.foreign 4 97).file (recCells 1) 4).2 = some .wipeMagic1 := by decide
+example : (runUntil (Prior.foreign 4 97).file (recCells 1) 4).1.len = 8 := by decide
+example : openText (runUntil (Prior.foreign 4 97).file (recCells 1) 4).1 ≠ "ok" := by decide
+example : (predict (.foreign 4 97) 4 1 2).fresh1 = "none" := by decide
+example : HoldsFile (.foreign 4 97) 1 2 (predict (.foreign 4 97) 4 1 2) = true := by decide
+-- what the oracle refuses: the same crash point leaving a valid header over the foreign payload
+example : HoldsFile (.foreign 4 97) 1 2
+    { predict (.foreign 4 97) 4 1 2 with open1 := "ok", len1 := 72, fresh1 := cellsText (recCells 97) } = false := by decide
 
 end ClockBound.C04
